@@ -952,6 +952,9 @@ class Machine(Interp):
         for x in seg.items:
             if isinstance(x, tuple):
                 elem_ids |= {id(y) for y in x}
+            for y in (x if isinstance(x, tuple) else (x,)):
+                if isinstance(y, Opaque):  # state owned by the element (its fields)
+                    elem_ids |= {id(f) for f in y.fields.values()}
         for e in effects:
             kind, obj = e[0], e[1]
             if id(obj) in allocs:
